@@ -63,7 +63,9 @@ SHAPES = ['role:x', '@', 'rule:{0}', 'not rule:{0}', 'rule:{0} and rule:{1}', 'r
           'not (role:x and not rule:{0})', '(rule:{0} or rule:{1}) and role:x', 'rule:{0} and not rule:{0}',
           'not not rule:{1}', 'rule:zz', 'role:x and not rule:zz',
           # a role check whose value is the name of a rule referenced next to it; a reference to the empty name
-          'role:{0} or rule:{0}', 'role:{1} and rule:{0}', 'role:x and rule:', 'not rule:']
+          'role:{0} or rule:{0}', 'role:{1} and rule:{0}', 'role:x and rule:', 'not rule:',
+          # a constant that decides the expression does not hide the reference next to it
+          '@ or rule:{0}', '! and rule:{0}', 'not (@ or rule:{0})', 'rule:zz and !', 'rule:{0} or @']
 
 
 def run(run, binfo):
@@ -214,6 +216,9 @@ def validator_cases(run, bad_corr):
         files.append({'b': v})
         files.append({'unknown': v, 'a': 'role:x'})
         files.append({'a': 'rule:b', 'b': 'rule:a' if v == '!' else v})
+    # an unregistered name stays unknown when another rule refers to it
+    files += [{'a': 'rule:helper', 'helper': 'role:x'}, {'a': 'role:x', 'b': 'not rule:helper', 'helper': '@'},
+              {'helper': 'rule:helper2', 'helper2': 'role:x', 'a': 'rule:helper'}]
     files.append({'self': 'rule:self', 'a': '@'})
     for regs in regsets:
         for f in files:
